@@ -21,6 +21,10 @@ def judgeMmapHist : P Verdict := do
   for k in [0:n] do
     let op ← tok
     let mut expectStatus := "ok"
+    -- the implementation's dirtiness test is conservative (pointer range computed from the CURRENT entry count:
+    -- after an in-place column shrink it re-maps a matrix all of whose rows still lie in the mapping); a re-map
+    -- cancelled at one of its polls leaves everything as it was, which is exactly the model's no-op
+    let cleanBefore := (match s.mapped with | some id => !dirty s id | none => false)
     match op with
     | "mmap" =>
       let (s', r) := mmap {} s
@@ -65,7 +69,8 @@ def judgeMmapHist : P Verdict := do
     let _ := residencyOK
     let pk := contentsOK && offHeapOK && ledgerOK
     -- CORR with the model's ledger and tags
-    let ck := st == expectStatus && csmEq r s.m && mapped == s.mapped.isSome &&
+    let statusOK := st == expectStatus || (op == "mmap-cancel" && cleanBefore && expectStatus == "ok" && st == "ctxerr")
+    let ck := statusOK && csmEq r s.m && mapped == s.mapped.isSome &&
       nonEmpty == nonEmptyCount s && inMap == inMapCount s &&
       tmpf == s.led.files.length && mapl == s.led.maps.length
     if p && !pk then msg := s!"step {k} {op}: contents={contentsOK} offheap={offHeapOK} ledger={ledgerOK} (tmpfiles={tmpf} maplines={mapl} inMap={inMap}/{nonEmpty})"
